@@ -122,11 +122,21 @@ Definition quad (B : nat) (v : list Q) (C : nat -> nat -> Q) : Q :=
 Definition dotv (B : nat) (v : list Q) (d : nat -> Q) : Q :=
   qsum (map (fun i => nth i v 0 * d i) (seq 0 B)).
 
+(* the same value evaluated with fractions reduced at every step (the unreduced terms of
+   [cov_code] on 53-bit dyadic inputs grow to thousands of digits); Proofs: cov_eval == cov_code *)
+Definition mean_r (X : list (list Q)) (i : nat) : Q := Qred (qsumr (col X i) / qn (length X)).
+Definition dev_r (X : list (list Q)) (r : list Q) (i : nat) : Q := Qred (nth i r 0 - mean_r X i).
+Definition sumprod_r (X : list (list Q)) (i j : nat) : Q :=
+  qsumr (map (fun r => Qred (dev_r X r i * dev_r X r j)) X).
+Definition cov_eval (X : list (list Q)) (i j : nat) : Q :=
+  Qred (sumprod_r X i j * (1 / qn (length X)) * qn (length X - 1)).
+
 (* absolute comparison against a forward error scale:  |a - b| <= tol * scale *)
 Definition Qnear (tol a b scale : Q) : bool := Qleb (Qabs (a - b)) (tol * scale).
 Definition tol44 : Q := 1 # 17592186044416.   (* 2^-44 *)
 Definition cov_scale (X : list (list Q)) (i j : nat) : Q :=
-  qsum (map (fun r => (Qabs (nth i r 0) + Qabs (mean_col X i)) * (Qabs (nth j r 0) + Qabs (mean_col X j))) X).
+  let mi := Qabs (mean_r X i) in let mj := Qabs (mean_r X j) in
+  qsumr (map (fun r => Qred ((Qabs (nth i r 0) + mi) * (Qabs (nth j r 0) + mj))) X).
 
 (* ------------------------------------------------ resample_jackknife, literally on index lists *)
 Definition tile {A} (l : list A) (n : nat) : list A := concat (repeat l n).        (* np.tile *)
@@ -221,7 +231,7 @@ Definition c03_cov_case (X : list (list Q)) (impl_cov : list (list Q)) (impl_err
   code [ (* the reported covariance is the delete-one jackknife covariance of these samples *)
          Nat.eqb (length impl_cov) B && forallb (fun r => Nat.eqb (length r) B) impl_cov
            && forallb (fun i => forallb (fun j =>
-                Qnear tol44 (entry i j) (cov_code X i j) (cov_scale X i j)) idx) idx;
+                Qnear tol44 (entry i j) (cov_eval X i j) (cov_scale X i j)) idx) idx;
          (* symmetric *)
          forallb (fun i => forallb (fun j =>
                 Qnear tol44 (entry i j) (entry j i) (cov_scale X i j)) idx) idx;
@@ -230,7 +240,9 @@ Definition c03_cov_case (X : list (list Q)) (impl_cov : list (list Q)) (impl_err
            && forallb (fun i => let e := nth i impl_err 0 in
                 Qleb 0 e && Qclose (4 * tol48) (e * e) (entry i i)) idx;
          (* v^T C v >= 0 up to rounding on the probe vectors *)
-         forallb (fun v => Qleb (- (tol44 * quad B (map Qabs v) (cov_scale X))) (quad B v entry)) probes ].
+         (let S := map (fun i => map (fun j => cov_scale X i j) idx) idx in
+          let sc i j := nth j (nth i S []) 0 in
+          forallb (fun v => Qleb (- (tol44 * quad B (map Qabs v) sc)) (quad B v entry)) probes) ].
 
 (* HistData.from_catalog: obs = per-patch histograms computed by the harness, shape (N, B).
    flag0: the implementation agrees with the current index model or with the repaired one;
